@@ -65,11 +65,11 @@ SPEC = {
             "address_pool_transparent_only": 500, "address_pool_memo_capable": 500, "address_pool_neither": 5,
         },
         "thorough": {
-            "evaluations": 5_000_000, "distinct_nontrivial": 3000, "selftest_spec_examples": 21, "spec_examples_run": 21,
-            "roundtrips": 600_000, "ref_rendered_exact": 600_000, "ref_amounts_checked_exact": 3_000_000, "mutated_uris": 1_200_000,
-            "from_uri_ok": 300_000, "ref_accepted_agree": 300_000, "fuzz_strings": 2_000_000, "memo_cases": 500_000,
-            "op_amount-form": 80_000, "op_index-form": 50_000, "op_req-param": 50_000, "op_memo-form": 50_000, "op_value-form": 50_000,
-            "ref_refused_and_rule_broken:bad-amount": 40_000, "ref_refused_and_rule_broken:duplicate-param": 40_000,
+            "evaluations": 3_000_000, "distinct_nontrivial": 3000, "selftest_spec_examples": 21, "spec_examples_run": 21,
+            "roundtrips": 300_000, "ref_rendered_exact": 300_000, "ref_amounts_checked_exact": 1_500_000, "mutated_uris": 600_000,
+            "from_uri_ok": 150_000, "ref_accepted_agree": 150_000, "fuzz_strings": 1_500_000, "memo_cases": 300_000,
+            "op_amount-form": 40_000, "op_index-form": 25_000, "op_req-param": 25_000, "op_memo-form": 25_000, "op_value-form": 25_000,
+            "ref_refused_and_rule_broken:bad-amount": 20_000, "ref_refused_and_rule_broken:duplicate-param": 20_000,
             "request_new_9999_ok": 1, "request_new_10000_refused": 1,
         },
     },
